@@ -132,6 +132,43 @@ def rounds (env : Env) : Nat → SrcSt → Option (List Pdu × SrcSt)
       | none => none
       | some (out', s'') => some (out ++ out', s'')
 
+/-- rounds compose -/
+theorem rounds_add (env : Env) : ∀ (a b : Nat) (s : SrcSt),
+    rounds env (a + b) s =
+      match rounds env a s with
+      | none => none
+      | some (o1, s1) =>
+        match rounds env b s1 with
+        | none => none
+        | some (o2, s2) => some (o1 ++ o2, s2) := by
+  intro a
+  induction a with
+  | zero =>
+    intro b s
+    simp only [Nat.zero_add, rounds]
+    cases rounds env b s with
+    | none => rfl
+    | some x => simp
+  | succ a ih =>
+    intro b s
+    have : a + 1 + b = (a + b) + 1 := by omega
+    rw [this]
+    simp only [rounds]
+    cases hr : round env s with
+    | none => rfl
+    | some x =>
+      obtain ⟨o, s1⟩ := x
+      simp only
+      rw [ih b s1]
+      cases rounds env a s1 with
+      | none => rfl
+      | some y =>
+        obtain ⟨o1, s2⟩ := y
+        simp only
+        cases rounds env b s2 with
+        | none => rfl
+        | some z => simp [List.append_assoc]
+
 /-- draining really is repeated `get_next_packet`: each call returns the head of the queue -/
 theorem C07_drain_step (s : SrcSt) (p : Pdu) (q : List Pdu) (h : s.queue = p :: q) :
     getNextPacket s = .ok (some p) { s with queue := q, numReady := s.numReady - 1 } ∧
@@ -368,6 +405,234 @@ example :
           mkFd ⟨.toRecv, .unack, false, false, ⟨1, 2⟩, ⟨2, 2⟩, ⟨0, 2⟩⟩ 4 [5, 6, 7, 8],
           mkFd ⟨.toRecv, .unack, false, false, ⟨1, 2⟩, ⟨2, 2⟩, ⟨0, 2⟩⟩ 8 [9],
           mkEof ⟨.toRecv, .unack, false, false, ⟨1, 2⟩, ⟨2, 2⟩, ⟨0, 2⟩⟩ 0 [15, 8, 10, 12] 9] := by
+  decide +kernel
+
+/-! ## The whole stream of one put request -/
+
+/-- payload of a File Data PDU (empty for the other PDUs) -/
+def payload : Pdu → List UInt8
+  | .fd _ _ d => d
+  | _ => []
+
+/-- the tiles of `F` put together are `F` -/
+theorem tiles_flatten (conf : Hdr) (F : List UInt8) (seg : Nat) :
+    ∀ k, (((List.range k).map (tile conf F seg 0)).map payload).flatten = F.take (k * seg) := by
+  intro k
+  induction k with
+  | zero => simp
+  | succ k ih =>
+    rw [List.range_succ, List.map_append, List.map_append, List.flatten_append, ih]
+    simp only [List.map_cons, List.map_nil, List.flatten_cons, List.flatten_nil, List.append_nil, tile, mkFd,
+      payload, Nat.zero_add]
+    rw [Nat.add_mul, Nat.one_mul, List.take_add]
+
+/-- **The whole stream (non-empty file, any mode).**  After an accepted put request for a non-empty
+file `F`, `1 + k + 1` calls (each followed by the retrieval of what it queued; `k` = number of
+tiles) emit exactly: the Metadata PDU (true size, both names, checksum type, closure flag), then `k`
+File Data PDUs — one per call, offsets `0, seg, 2·seg, …`, each at most `seg` bytes —, then the EOF
+PDU with the file's size and checksum.  The payloads, put together in order, are exactly `F`: every
+byte once, none twice, none missing.  No call raises. -/
+theorem C07_whole_stream (env : Env) (s : SrcSt) (req : PutReq) (rc : RemoteCfg) (src dst : String)
+    (F cks : List UInt8) (seg k : Nat)
+    (hst : s.state = .busy) (hstep : s.step = .IDLE) (hq : s.queue = []) (hreq : s.putReq = some req)
+    (hpmo : s.p.metadataOnly = false) (hsrc : req.src = some src) (hdst : req.dst = some dst)
+    (hfile : s.fs.get src = some (.file F)) (hF : F ≠ []) (hprog : s.p.progress = 0)
+    (hrc : s.p.remoteCfg = some rc) (hbits : s.prov.bits = 8 ∨ s.prov.bits = 16 ∨ s.prov.bits = 32)
+    (hseg : segLenOf rc (startConf env req rc s (decide (F.length > 4294967295))) = some seg) (hseg0 : 0 < seg)
+    (hk : (k - 1) * seg < F.length ∧ F.length ≤ k * seg)
+    (hcks : Checksum.calcChecksum (Checksum.CksType.ofNat rc.cks) F F.length seg = .ok cks)
+    (hnull : Checksum.CksType.ofNat rc.cks ≠ .null) (hlen : cks.length = 4)
+    (hack : 0 < rc.ackMs) (hchk : 0 < env.cfg.chkMs) :
+    let conf := startConf env req rc s (decide (F.length > 4294967295))
+    let md := mkMd conf s.p.closure rc.cks F.length (some src) (some dst) (some (req.msgs.getD []))
+    let tiles := (List.range k).map (tile conf F seg 0)
+    ∃ s', rounds env (1 + k + 1) s = some ([md] ++ tiles ++ [mkEof conf ccNoError cks F.length], s') ∧
+      (tiles.map payload).flatten = F ∧ (∀ p ∈ tiles, (payload p).length ≤ seg) := by
+  intro conf md tiles
+  have hk1 : 1 ≤ k := by
+    rcases Nat.eq_zero_or_pos k with h0 | h0
+    · subst h0
+      have : F.length = 0 := by have := hk.2; omega
+      exact absurd (List.eq_nil_of_length_eq_zero this) hF
+    · exact h0
+  obtain ⟨hcall1, hS1⟩ := C07_metadata_call env s req rc src dst F seg hst hstep hq hreq hpmo hsrc hdst hfile hF
+    hprog hrc hbits hseg hseg0
+  obtain ⟨s2, hr2, hp2, hc2, hsg2, hst2, hS2, hFr2⟩ := C07_stream_tiles env req src F k _ hS1
+    (Or.inr (by simp only [drained, afterMetadata, hprog, Nat.zero_add]; exact hk.1))
+  have hstep2 : s2.step = .SENDING_FILE_DATA := hst2.resolve_left (by omega)
+  have hprog2 : s2.p.progress = s2.p.fileSize := by
+    rw [hp2, hS2.hsize]; simp only [drained, afterMetadata, hprog, Nat.zero_add]
+    exact Nat.min_eq_left hk.2
+  simp only [Frame] at hFr2
+  obtain ⟨f1, f2, f3, f4, f5, f6, f7, f8, f9, f10, f11, f12, f13, f14, f15, f16⟩ := hFr2
+  obtain ⟨s3, hcall3, hq3, -, -, -, -, -⟩ := C07_eof_call env s2 req rc src F cks
+    ⟨env.cfg.entityId, ⟨s.prov.next, s.prov.bits / 8⟩⟩ hS2.hbusy hstep2 hS2.hqueue hS2.hreq hS2.hsrc hS2.hnotMo
+    hS2.hfile hS2.hsize hprog2 (by rw [f1]; simp [drained, afterMetadata, hrc]) (by rw [f2]; simp [drained, afterMetadata])
+    (by rw [hsg2]; simpa [drained, afterMetadata] using hcks) hnull hlen hack hchk
+  refine ⟨drained s3, ?_, ?_, ?_⟩
+  · rw [rounds_add env (1 + k) 1 s, rounds_add env 1 k s]
+    simp only [rounds, round, hcall1, hr2, hcall3, hq3]
+    simp [drained, afterMetadata, hprog, hc2, conf, md, tiles]
+  · rw [tiles_flatten]; exact List.take_of_length_le hk.2
+  · intro p hp
+    simp only [tiles, List.mem_map, List.mem_range] at hp
+    obtain ⟨i, -, rfl⟩ := hp
+    simp only [tile, mkFd, payload, List.length_take]
+    omega
+
+
+/-- the sender after the first call for an empty file -/
+def afterMetadataE (env : Env) (s : SrcSt) (req : PutReq) (rc : RemoteCfg) (src dst : String) (seg : Nat) : SrcSt :=
+  let conf := startConf env req rc s false
+  let tid : Tid := ⟨env.cfg.entityId, ⟨s.prov.next, s.prov.bits / 8⟩⟩
+  { s with step := .SENDING_METADATA, numReady := s.numReady + 1,
+           queue := [mkMd conf s.p.closure rc.cks 0 (some src) (some dst) (some (req.msgs.getD []))],
+           prov := { s.prov with next := (s.prov.next + 1) % provWrap s.prov.bits },
+           inds := s.inds ++ [.tx tid (checkForOriginatingId req.msgs)],
+           p := { s.p with emptyFile := true, conf := conf, segmentLen := seg, tid := some tid } }
+
+/-- **Empty file, first call**: exactly the Metadata PDU, announcing size 0 -/
+theorem C07_metadata_call_empty (env : Env) (s : SrcSt) (req : PutReq) (rc : RemoteCfg) (src dst : String)
+    (seg : Nat)
+    (hst : s.state = .busy) (hstep : s.step = .IDLE) (hq : s.queue = [])
+    (hreq : s.putReq = some req) (hpmo : s.p.metadataOnly = false)
+    (hsrc : req.src = some src) (hdst : req.dst = some dst)
+    (hfile : s.fs.get src = some (.file [])) (hsz0 : s.p.fileSize = 0)
+    (hrc : s.p.remoteCfg = some rc) (hbits : s.prov.bits = 8 ∨ s.prov.bits = 16 ∨ s.prov.bits = 32)
+    (hseg : segLenOf rc (startConf env req rc s false) = some seg) :
+    stateMachine env none s = .ok () (afterMetadataE env s req rc src dst seg) := by
+  have hex : Fs.exists' s.fs src = true := by simp [Fs.exists', hfile]
+  have hsz : Fs.fileSize s.fs src = .ok 0 := by simp [Fs.fileSize, hfile]
+  have hb : ¬((¬s.prov.bits = 8 ∧ ¬s.prov.bits = 16) ∧ ¬s.prov.bits = 32) := by omega
+  unfold startConf at hseg
+  msimp [stateMachine, fsmNonIdle, fsmAdvancementAfterPacketsWereSent, transactionStart,
+    prepareMetadataPdu, addPacket, hst, hstep, hq, hreq, hpmo, hsrc, hdst, hex, hsz, hsz0, hrc,
+    modP, getP, emitInd, hb, hseg, startConf, PutReq.metadataOnly, afterMetadataE]
+
+/-- **Empty file, second call**: exactly the EOF PDU, size 0 and the checksum of no bytes; no File
+Data PDU is ever built -/
+theorem C07_eof_call_empty (env : Env) (s : SrcSt) (req : PutReq) (rc : RemoteCfg) (src : String)
+    (cks : List UInt8) (tid : Tid)
+    (hst : s.state = .busy) (hstep : s.step = .SENDING_METADATA) (hq : s.queue = [])
+    (hreq : s.putReq = some req) (hsrc : req.src = some src) (hmo : s.p.metadataOnly = false)
+    (hempty : s.p.emptyFile = true)
+    (hfile : s.fs.get src = some (.file [])) (hsize : s.p.fileSize = 0) (hprog : s.p.progress = 0)
+    (hrc : s.p.remoteCfg = some rc) (htid : s.p.tid = some tid)
+    (hcks : Checksum.calcChecksum (Checksum.CksType.ofNat rc.cks) [] 0 s.p.segmentLen = .ok cks)
+    (hnull : Checksum.CksType.ofNat rc.cks ≠ .null) (hlen : cks.length = 4)
+    (hack : 0 < rc.ackMs) (hchk : 0 < env.cfg.chkMs) :
+    ∃ s', stateMachine env none s = .ok () s' ∧ s'.queue = [mkEof s.p.conf ccNoError cks 0] ∧ s'.fs = s.fs ∧
+      s'.flts = s.flts := by
+  have hfc : Fs.calcChecksum s.fs (Checksum.CksType.ofNat rc.cks) src 0 s.p.segmentLen = .ok cks := by
+    simp [Fs.calcChecksum, hfile, hnull, hcks]
+  have hnt1 : rc.ackMs ≠ 0 := by omega
+  have hnt2 : env.cfg.chkMs ≠ 0 := by omega
+  cases hm : s.p.conf.mode <;> cases hcl : s.p.closure <;> cases hi : env.cfg.indEofSent <;>
+    cases hf : env.cfg.indFinished <;>
+  · apply Exists.intro
+    constructor
+    · msimp [stateMachine, fsmNonIdle, fsmAdvancementAfterPacketsWereSent, fsmFromSendingFileData,
+        sendingFileDataFsm, hempty,
+        fsmFromSendingEof, fsmFromWaitingForEofAck, fsmFromWaitingForFinished, fsmFromNoticeOfCompletion,
+        checksumCalculation, prepareEofPdu, handleEofSent, startPositiveAckProcedure, handleWaitingForAck,
+        handleRetransmission, handlePositiveAckProcedures, handleWaitForFinish, noticeOfCompletion,
+        resetInternal, transmissionMode, Timer.timedOut,
+        getP, modP, addPacket, emitInd, hst, hstep, hq, hreq, hsrc, hmo, hsize, hprog, hrc, htid, hfc, hlen,
+        hm, hcl, hi, hf, hnt1, hnt2]
+      rfl
+    · simp
+
+/-- **The whole stream of an empty file**: two calls, exactly the Metadata PDU (size 0) and the EOF
+PDU (size 0, checksum of no bytes) — never a File Data PDU. -/
+theorem C07_whole_stream_empty (env : Env) (s : SrcSt) (req : PutReq) (rc : RemoteCfg) (src dst : String)
+    (cks : List UInt8) (seg : Nat)
+    (hst : s.state = .busy) (hstep : s.step = .IDLE) (hq : s.queue = []) (hreq : s.putReq = some req)
+    (hpmo : s.p.metadataOnly = false) (hsrc : req.src = some src) (hdst : req.dst = some dst)
+    (hfile : s.fs.get src = some (.file [])) (hsz0 : s.p.fileSize = 0) (hprog : s.p.progress = 0)
+    (hrc : s.p.remoteCfg = some rc) (hbits : s.prov.bits = 8 ∨ s.prov.bits = 16 ∨ s.prov.bits = 32)
+    (hseg : segLenOf rc (startConf env req rc s false) = some seg)
+    (hcks : Checksum.calcChecksum (Checksum.CksType.ofNat rc.cks) [] 0 seg = .ok cks)
+    (hnull : Checksum.CksType.ofNat rc.cks ≠ .null) (hlen : cks.length = 4)
+    (hack : 0 < rc.ackMs) (hchk : 0 < env.cfg.chkMs) :
+    ∃ s', rounds env 2 s =
+      some ([mkMd (startConf env req rc s false) s.p.closure rc.cks 0 (some src) (some dst) (some (req.msgs.getD [])),
+             mkEof (startConf env req rc s false) ccNoError cks 0], s') := by
+  have h1 := C07_metadata_call_empty env s req rc src dst seg hst hstep hq hreq hpmo hsrc hdst hfile hsz0 hrc hbits hseg
+  obtain ⟨s2, h2, hq2, -, -⟩ := C07_eof_call_empty env (drained (afterMetadataE env s req rc src dst seg)) req rc src cks
+    ⟨env.cfg.entityId, ⟨s.prov.next, s.prov.bits / 8⟩⟩ (by simp [drained, afterMetadataE, hst])
+    (by simp [drained, afterMetadataE]) (by simp [drained]) (by simp [drained, afterMetadataE, hreq]) hsrc
+    (by simp [drained, afterMetadataE, hpmo]) (by simp [drained, afterMetadataE])
+    (by simp [drained, afterMetadataE, hfile]) (by simp [drained, afterMetadataE, hsz0])
+    (by simp [drained, afterMetadataE, hprog]) (by simp [drained, afterMetadataE, hrc])
+    (by simp [drained, afterMetadataE]) (by simpa [drained, afterMetadataE] using hcks) hnull hlen hack hchk
+  refine ⟨drained s2, ?_⟩
+  simp only [rounds, round, h1, h2, hq2]
+  simp [drained, afterMetadataE]
+
+/-- the sender after the first call of a metadata-only request -/
+def afterMetadataMo (env : Env) (s : SrcSt) (req : PutReq) (rc : RemoteCfg) (seg : Nat) : SrcSt :=
+  let conf := startConf env req rc s s.p.conf.large
+  let tid : Tid := ⟨env.cfg.entityId, ⟨s.prov.next, s.prov.bits / 8⟩⟩
+  { s with step := .SENDING_METADATA, numReady := s.numReady + 1,
+           queue := [mkMd conf s.p.closure 15 0 none none (some (req.msgs.getD []))],
+           prov := { s.prov with next := (s.prov.next + 1) % provWrap s.prov.bits },
+           inds := s.inds ++ [.tx tid (checkForOriginatingId req.msgs)],
+           p := { s.p with metadataOnly := true, conf := conf, segmentLen := seg, tid := some tid } }
+
+/-- **Metadata-only request, first call**: exactly one Metadata PDU — no file names, size 0, the null
+checksum type, the request's messages — and the filestore is not consulted at all. -/
+theorem C07_metadata_only_call (env : Env) (s : SrcSt) (req : PutReq) (rc : RemoteCfg) (seg : Nat)
+    (hst : s.state = .busy) (hstep : s.step = .IDLE) (hq : s.queue = [])
+    (hreq : s.putReq = some req) (hsrc : req.src = none) (hdst : req.dst = none)
+    (hrc : s.p.remoteCfg = some rc) (hbits : s.prov.bits = 8 ∨ s.prov.bits = 16 ∨ s.prov.bits = 32)
+    (hseg : segLenOf rc (startConf env req rc s s.p.conf.large) = some seg) :
+    stateMachine env none s = .ok () (afterMetadataMo env s req rc seg) := by
+  have hb : ¬((¬s.prov.bits = 8 ∧ ¬s.prov.bits = 16) ∧ ¬s.prov.bits = 32) := by omega
+  unfold startConf at hseg
+  msimp [stateMachine, fsmNonIdle, fsmAdvancementAfterPacketsWereSent, transactionStart,
+    prepareMetadataPdu, addPacket, hst, hstep, hq, hreq, hsrc, hdst, hrc,
+    modP, getP, emitInd, hb, hseg, startConf, PutReq.metadataOnly, afterMetadataMo]
+
+/-- **Metadata-only request, second call**: nothing more is sent — no File Data, no EOF; the sender
+waits for the Finished PDU (closure requested or acknowledged mode) or completes at once. -/
+theorem C07_metadata_only_second_call (env : Env) (s : SrcSt) (req : PutReq) (tid : Tid)
+    (hst : s.state = .busy) (hstep : s.step = .SENDING_METADATA) (hq : s.queue = [])
+    (hreq : s.putReq = some req) (hmo : s.p.metadataOnly = true) (hempty : s.p.emptyFile = false)
+    (hct : s.p.checkTimer = none) (htid : s.p.tid = some tid) :
+    ∃ s', stateMachine env none s = .ok () s' ∧ s'.queue = [] ∧ s'.fs = s.fs ∧ s'.flts = s.flts ∧
+      ((s.p.closure = true ∨ s.p.conf.mode = .ack) → s'.step = .WAITING_FOR_FINISHED ∧ s'.state = .busy) ∧
+      (s.p.closure = false → s.p.conf.mode = .unack → s'.state = .idle ∧ s'.step = .IDLE) := by
+  cases hm : s.p.conf.mode <;> cases hcl : s.p.closure <;> cases hf : env.cfg.indFinished <;>
+  · apply Exists.intro
+    constructor
+    · msimp [stateMachine, fsmNonIdle, fsmAdvancementAfterPacketsWereSent, fsmFromSendingFileData,
+        sendingFileDataFsm, hempty,
+        fsmFromSendingEof, fsmFromWaitingForEofAck, fsmFromWaitingForFinished, fsmFromNoticeOfCompletion,
+        handleRetransmission, handleWaitForFinish, noticeOfCompletion,
+        resetInternal, transmissionMode, getP, modP, addPacket, emitInd, hst, hstep, hq, hreq, hmo, htid, hct,
+        hm, hcl, hf]
+      rfl
+    · simp [hq]
+
+/-! ### non-vacuity: the empty file and the metadata-only request, run -/
+
+def exInitE : SrcSt := { fs := [("/f", .file [])] }
+
+example :
+    (match putRequest exEnv exReq exInitE with
+     | .ok _ s => (rounds exEnv 3 s).map (·.1)
+     | .error _ _ => none) =
+    some [mkMd ⟨.toRecv, .unack, false, false, ⟨1, 2⟩, ⟨2, 2⟩, ⟨0, 2⟩⟩ false 0 0 (some "/f") (some "/g") (some []),
+          mkEof ⟨.toRecv, .unack, false, false, ⟨1, 2⟩, ⟨2, 2⟩, ⟨0, 2⟩⟩ 0 [0, 0, 0, 0] 0] := by
+  decide +kernel
+
+def exReqMo : PutReq := ⟨⟨2, 2⟩, none, none, none, none, some [.plain [1, 2]]⟩
+
+example :
+    (match putRequest exEnv exReqMo exInitE with
+     | .ok _ s => (rounds exEnv 3 s).map (·.1)
+     | .error _ _ => none) =
+    some [mkMd ⟨.toRecv, .unack, false, false, ⟨1, 2⟩, ⟨2, 2⟩, ⟨0, 2⟩⟩ false 15 0 none none (some [.plain [1, 2]])] := by
   decide +kernel
 
 end Cfdp.Source.C07
